@@ -74,10 +74,40 @@ CLAIMED = {
              "otherwise). Tied to /repo by running the real constructors/serialize and the extracted model on the "
              "same commands; predicate = independent Python encoder of the U3V layout. Magic, the four command ids and "
              "the request-ack flag of the model are proved equal to gen/ProtoTables.v, REGENERATED from cmd.rs / ack.rs on "
-             "every run (C09_constants_from_source; each acknowledge id of the source table = command id + 1).",
+             "every run (C09_constants_from_source; each acknowledge id of the source table = command id + 1). "
+             "TIE TO THE SOURCE CODE: tools/translate_serialize.py (a typed mini-Rust translator) regenerates "
+             "gen/SerializeSrc.v on every run from device/src/u3v/protocol/cmd.rs: the structs and enums (Records / "
+             "Inductives), the trait CommandScd as a record of methods with its four implementations as instances (code "
+             "generic in T: CommandScd takes the record), the constants, the constructors (ReadMem::new, WriteMem::new, "
+             "ReadMemStacked::{new,len,ack_scd_len}, WriteMemStacked::{new,len}, CommandCcd::{new,from_scd}, "
+             "CommandPacket::new, finalize, into_scd_len; usize / u16 arithmetic with the debug-build overflow checks of "
+             "lib/RustInt.v, checked_add, try_into, fold and for loops as a monadic fold), cmd_len / maximum_ack_len / "
+             "header_len / scd_len / ack_scd_len, and every serializer (CommandPacket, CommandCcd, CommandFlag, ScdKind "
+             "and the four commands) as the ordered list of write operations it performs (write_bytes_le of an n-byte "
+             "integer, write_all of a slice, nested serializers, for loops as flat_map), which model/SerOps.v runs "
+             "against a sink. Proved (proofs/P_C09s.v): for EVERY command value, request id and sink - growable or a "
+             "slice of any size - running the translated serializer is the model's serialize, and on a Vec its bytes are "
+             "serialize_vec (C09_serialize_from_source, induction over the entry lists); the translated length functions "
+             "are the model's (C09_lengths_from_source); the match tables inside the serializers are those of "
+             "gen/ProtoTables.v (C09_tables_from_source); the translated constructors equal the model's below 2^64-byte "
+             "sizes and return Ok for exactly the same commands without any size condition "
+             "(C09_constructors_from_source, C09_constructed_by_source, C09_source_constructed_is_modelled); and the "
+             "property restated on the translated code alone (C09_layout_of_source): for whatever the translated "
+             "constructors return, the translated bytes are magic / flags / command id / SCD length / request id at "
+             "offsets 0/4/6/8/10 followed by an SCD of exactly that length, the independent decoder reads back the "
+             "command, the translated cmd_len is the byte count and the translated maximum_ack_len bounds every "
+             "conforming acknowledge. The translator also checks that no other function of cmd.rs builds or mutates a "
+             "command (struct literals, field assignments, &mut self, .entries) and pins the shape of write_bytes_le "
+             "in impl/src/bytes_io.rs; anything outside the accepted shapes is a ShapeError = broken proof obligation.",
         note="Trusted: Coq kernel, model/Cmd.v validated by correspondence, spec/CmdLayout.v (decoder typed from the "
-             "U3V layout), tools/translate_proto.py (regex translator of the protocol constants, shape assertions), extraction cross-checked with vm_compute, driver.ml, rust/h_proto, tools/c09.py.",
-        technique="Coq proof (decoder∘encoder = id by induction over entry lists) + model/implementation correspondence",
+             "U3V layout), tools/translate_proto.py (regex translator of the protocol constants, shape assertions), "
+             "tools/translate_serialize.py (parser / type checker / emitter for the Rust subset of the translated "
+             "functions; method and trait resolution by name and receiver type; references erased, which is sound for "
+             "the accepted shapes because nothing is mutated through a reference) with model/SerOps.v (meaning of the "
+             "write operations: `?` after write_bytes_le never fires on Vec / slice sinks and drops the count, `?` "
+             "after write_all leaves all enclosing serializers) and lib/RustInt.v, extraction cross-checked with "
+             "vm_compute, driver.ml, rust/h_proto, tools/c09.py.",
+        technique="Coq proof (decoder∘encoder = id by induction over entry lists; translated code = model by induction over entry lists and case analysis of every overflow check) + code translator re-run on every check + model/implementation correspondence",
         design="6/C09"),
     "C08": dict(
         text="Coq theorems (props/C08.v): the cursor-style model of AckPacket::parse equals a fixed-offset layout decoder "
